@@ -200,6 +200,8 @@ inductive ValErr where
   | rejected (e : RespErr)
   deriving DecidableEq, Repr, Inhabited
 
+deriving instance DecidableEq for Except
+
 /-! ## `WebSocketSubValidator::validate` (subscriber/validator.rs:41-127) -/
 
 /-- Loop state: `success_responses`, `buff_active_subscription_events`, and the time the current
@@ -382,7 +384,7 @@ def fatal (validate : R → Option RespErr) (timeout : Nat) (quiet : List (Frame
 
 /-- Specification of a validation run, over the history `pre` of consumed items: complete as soon as
 `complete pre`; otherwise the next item is fatal, or joins the history. -/
-def scanWith (complete : List (Frame R) → Bool) (result : List (Frame R) → List (Frame R) → α)
+def scanWith {α : Type} (complete : List (Frame R) → Bool) (result : List (Frame R) → List (Frame R) → α)
     (fatalNext : List (Frame R) → Frame R → Option ValErr) :
     List (Frame R) → List (Frame R) → Except ValErr α
   | pre, [] => if complete pre then .ok (result pre []) else .error .ended
@@ -410,20 +412,23 @@ end Spec
 
 /-! ### Bitfinex -/
 
-/-- the `channel|market` keys confirmed in the history, with the channel id of each confirmation -/
-def confirmations (pre : List (Frame BfxEvent)) : List (Key × Nat) :=
-  pre.filterMap fun
-    | .resp (.subscribed c m id) => some (.sub c m, id)
-    | _ => none
+/-- the subscription (`channel|market` key) a frame confirms, with the channel id it announces -/
+def confOf : Frame BfxEvent → Option (Key × Nat)
+  | .resp (.subscribed c m id) => some (.sub c m, id)
+  | _ => none
+
+/-- the confirmations in the history, in order -/
+def confirmations (pre : List (Frame BfxEvent)) : List (Key × Nat) := pre.filterMap confOf
 
 /-- channel id the venue assigned to a subscription: its first confirmation -/
 def chanIdOf (pre : List (Frame BfxEvent)) (k : Key) : Option Nat :=
   ((confirmations pre).find? (fun e => e.1 == k)).map (·.2)
 
 /-- the frame confirms a subscription of the original map -/
-def isHit (map0 : IMap) : Frame BfxEvent → Bool
-  | .resp (.subscribed c m _) => (map0.get (.sub c m)).isSome
-  | _ => false
+def isHit (map0 : IMap) (f : Frame BfxEvent) : Bool :=
+  match confOf f with
+  | some (k, _) => (map0.get k).isSome
+  | none => false
 
 /-- number of subscriptions of the original map the history confirms -/
 def hitCount (map0 : IMap) (pre : List (Frame BfxEvent)) : Nat :=
@@ -433,13 +438,18 @@ def hitCount (map0 : IMap) (pre : List (Frame BfxEvent)) : Nat :=
 def snapshotsOf (map0 : IMap) (pre : List (Frame BfxEvent)) : List Nat :=
   others (pre.dropWhile (fun f => !isHit map0 f))
 
-/-- The instrument map keyed by the venue's channel ids: every confirmed subscription moves to its channel
-id, unconfirmed ones stay. -/
-def rekey (map0 : IMap) (pre : List (Frame BfxEvent)) : IMap :=
-  map0.map fun e =>
-    match chanIdOf pre e.1 with
-    | some id => (.chan id, e.2)
-    | none => e
+/-- a confirmed subscription moves to its channel id, an unconfirmed one stays -/
+def rekeyEntry (pre : List (Frame BfxEvent)) (e : Key × Nat) : Key × Nat :=
+  match chanIdOf pre e.1 with
+  | some id => (.chan id, e.2)
+  | none => e
+
+/-- The instrument map keyed by the venue's channel ids. -/
+def rekey (map0 : IMap) (pre : List (Frame BfxEvent)) : IMap := map0.map (rekeyEntry pre)
+
+/-- the venue gave the confirmed subscriptions pairwise different channel ids -/
+def distinctIds (map0 : IMap) (pre : List (Frame BfxEvent)) : Bool :=
+  decide ((map0.filterMap (fun e => chanIdOf pre e.1)).Nodup)
 
 /-- Bitfinex: complete when every subscription is confirmed and as many follow-up payloads as
 subscriptions have arrived (the code's "Bitfinex sends snapshots as the first message, so count them also"). -/
